@@ -81,7 +81,7 @@ def fmt(inst, precision="any", constraint="exact"):
     return "%04d-%02d-%02dT%02d:%02d:%02d%s%sZ" % (y, mo, d, h, mi, s, "." if frac else "", frac)
 
 
-TS_RE = re.compile(r"^(\d{4})-(\d{2})-(\d{2})T(\d{2}):(\d{2}):(\d{2})(?:\.(\d+))?Z$")
+TS_RE = re.compile(r"^(\d{4})-(\d{2})-(\d{2})T(\d{2}):(\d{2}):(\d{2})(?:\.(\d+))?Z\Z")
 
 
 def parse_ts(text):
